@@ -35,6 +35,7 @@ import numpy as np
 
 from ..core.ctx import dask_frame, exc_label
 from ..gen import arrays as A
+from ..mon import siblings as S
 from ..mon.compare import blocks_mismatch, compare_arrays, lazy_meta_mismatch
 
 PROP = "C34"
@@ -426,7 +427,7 @@ def _exception(ctx, ex, case):
             ctx.exception(root, prefix="%s:%s" % (case["op"], _feat(case)))
 
 
-def run_case(case, ctx):
+def run_case(case, ctx, _only_build=False):
     import dask.array as da
 
     op = case["op"]
@@ -551,6 +552,8 @@ def run_case(case, ctx):
             except Exception as ex:  # noqa: BLE001
                 ctx.reject("numpy: %s: %s" % (type(ex).__name__, ex))
                 return
+            if _only_build:
+                return call()        # sibling facet: only the lazily built collections of a case description
             # ---- dask -------------------------------------------------------------------------------
             try:
                 rs = call()
@@ -609,3 +612,115 @@ def run_case(case, ctx):
     if spec:
         ctx.distinct("chunk_spec_kinds", (op, spec["t"]))
     ctx.sample = {"op": op, "chunks": [str(r.chunks) for r in rs][:3], "dtype": str(np.asarray(rvs[0]).dtype) if rvs else None}
+    # ---- sibling facet: the same creation call with ONE other argument (k, dtype, endpoint, fill value, stop, ...) must
+    # not share keys with this one.  empty / empty_like hold uninitialised memory: no values to compare.
+    if not (op in ("wrap", "like") and case["fn"].startswith("empty")) and rs:
+        sib = _sibling(case)
+        if sib is not None:
+            from ..core.ctx import Ctx
+
+            param, c2 = sib
+            S.check(ctx, op if op not in ("wrap", "like") else case["fn"], param, tuple(rs),
+                    (lambda: tuple(run_case(c2, Ctx(c2), _only_build=True) or ())), va=tuple(rvs),
+                    describe={k: v for k, v in c2.items() if case.get(k) != v})
+
+
+def _other_dtype(srng, cur, pool=("int64", "int32", "float64", "float32", "complex128", "uint8")):
+    return srng.choice([d for d in pool if d != cur])
+
+
+def _grow_spec(spec, axis, delta):
+    """explicit chunks follow a length change of `axis` (last chunk grows); other spec forms adapt by themselves"""
+    if spec and spec["t"] == "explicit":
+        v = [list(c) for c in spec["v"]]
+        v[axis][-1] = max(v[axis][-1] + delta, 0)
+        return {"t": "explicit", "v": v}
+    return spec
+
+
+def _sibling(case):
+    """(parameter, case with that ONE argument changed) or None"""
+    op = case["op"]
+    srng = S.rng_for(case)
+    c2 = dict(case)
+    u = srng.random()
+    if op == "arange":
+        args = list(case["args"])
+        isfloat = any(isinstance(a, float) for a in args)
+        if u < 0.3:
+            pool = ("float64", "float32", "complex128") if isfloat else ("int64", "int32", "float64", "float32", "complex128")
+            eff = case["dtype"] or ("float64" if isfloat else "int64")
+            c2["dtype"] = srng.choice([d for d in pool if d != eff])
+            return "dtype", c2
+        with warnings.catch_warnings():
+            warnings.simplefilter("ignore")
+            n0 = len(np.arange(*args))
+            step = args[2] if len(args) == 3 else 1
+            i = 0 if len(args) == 1 else 1
+            args[i] = args[i] + (step if n0 else (3 * step))
+            n1 = len(np.arange(*args))
+        if n1 == n0 or n1 > 60:
+            return None
+        c2["args"] = args
+        c2["chunks"] = _grow_spec(case["chunks"], 0, n1 - n0)
+        return "stop", c2
+    if op == "linspace":
+        if u < 0.4:
+            c2["endpoint"] = not case["endpoint"]
+            return "endpoint", c2
+        if u < 0.7:
+            c2["num"] = case["num"] + 1
+            c2["chunks"] = _grow_spec(case["chunks"], 0, 1)
+            return "num", c2
+        if u < 0.85:
+            c2["stop"] = case["stop"] + 1
+            return "stop", c2
+        c2["dtype"] = srng.choice([d for d in ("float64", "float32", "complex128") if d != (case["dtype"] or "float64")])
+        return "dtype", c2
+    if op in ("eye", "tri"):
+        if u < 0.6:
+            c2["k"] = srng.choice([k for k in (0, 1, -1, 2, -2) if k != case["k"]])
+            return "k", c2
+        if u < 0.8 and op == "eye":
+            N, M = case["N"], case["M"]
+            c2["M"] = (N if M is None else M) + 1
+            return "M", c2
+        c2["dtype"] = _other_dtype(srng, case["dtype"] or "float64", ("int64", "float64", "float32", "bool", "complex128", "uint8"))
+        return "dtype", c2
+    if op == "diag":
+        c2["k"] = srng.choice([k for k in (0, 1, -1, 2) if k != case["k"]])
+        return "k", c2
+    if op == "diagonal":
+        c2["offset"] = srng.choice([k for k in (0, 1, -1, 2) if k != case["offset"]])
+        return "offset", c2
+    if op == "indices":
+        c2["dtype"] = _other_dtype(srng, case["dtype"] or "int64", ("int64", "int32", "float64", "uint8", "float32"))
+        return "dtype", c2
+    if op == "meshgrid":
+        if u < 0.5:
+            c2["indexing"] = "ij" if case["indexing"] == "xy" else "xy"
+            return "indexing", c2
+        c2["sparse"] = not case["sparse"]
+        return "sparse", c2
+    if op == "fromfunction":
+        if u < 0.7:
+            c2["func"] = srng.choice([f for f in FUNCS if f != case["func"]])
+            return "function", c2
+        c2["dtype"] = _other_dtype(srng, case["dtype"], ("int64", "float64", "float32", "int32"))
+        return "dtype", c2
+    if op in ("wrap", "like"):
+        fn = case["fn"]
+        if fn.startswith("full") and u < 0.7:
+            c2["fill"] = srng.choice([i for i in range(len(FILLS)) if i != case["fill"]])
+            return "fill_value", c2
+        spec = case.get("chunks")
+        shape = case["new_shape"] if (op == "like" and case["new_shape"] is not None) else case["shape"]
+        if spec and spec["t"] == "explicit" and any(n >= 2 for n in shape) and u < 0.85:
+            for _ in range(6):
+                v = [list(c) for c in A.rand_chunks(srng, shape)]
+                if v != spec["v"]:
+                    c2["chunks"] = {"t": "explicit", "v": v}
+                    return "chunks", c2
+        c2["dtype"] = _other_dtype(srng, case["dtype"], ("int64", "int32", "float64", "float32", "bool", "complex128", "uint8"))
+        return "dtype", c2
+    return None
